@@ -22,6 +22,33 @@ def stdLenOf : Nat → Option Nat
   | 2 => some stdLenSha
   | _ => none
 
+def apiOf : String → Option Api
+  | "c3" => some .check3
+  | "d3" => some .checkDigest3
+  | "c2" => some .check2
+  | "c1" => some .check
+  | "dg2" => some .checkDigest2
+  | "dg1" => some .checkDigest
+  | _ => none
+
+/-- which (entry point, client algorithm, max_nc) combinations the scripts may use: the
+    legacy entry points have no max_nc parameter; `_check` and `_check_digest` are MD5 only;
+    `_check_digest2` needs MD5 or SHA-256 -/
+def apiAllowed (a : Api) (algo mx : Nat) : Bool :=
+  match a with
+  | .check3 => true
+  | .checkDigest3 => true
+  | .check2 => mx == 0
+  | .check => mx == 0 && algo == 0
+  | .checkDigest2 => mx == 0 && algo ≤ 1
+  | .checkDigest => mx == 0 && algo == 0
+
+def showApiOut : ApiOut → String
+  | .res o => showOut o
+  | .yes => "yes"
+  | .invalidNonce => "invalid"
+  | .no => "no"
+
 def hex16 (m : Nat) : String :=
   String.ofList ((List.range 16).map fun j => hexDigit ((m / 16 ^ (15 - j)) % 16))
 
@@ -93,15 +120,15 @@ def stepLine (s : DSt) (ws : List String) : DSt × List String :=
       match bytesOfHex d with
       | some b => (s, [s!"hash {fastSimpleHash b}"])
       | none => bad s
-  | ["auth", algo, tmo, mx, nonce, nctxt, _resp] =>
-      match algo.toNat?.bind stdLenOf, tmo.toNat?, mx.toNat?, bytesOfHex nonce with
-      | some sl, some tm, some m, some n =>
-        if tm ≥ 2 ^ 32 ∨ m ≥ 2 ^ 32 then bad s
+  | ["auth", api, algo, tmo, mx, nonce, nctxt, _resp] =>
+      match apiOf api, algo.toNat?, algo.toNat?.bind stdLenOf, tmo.toNat?, mx.toNat?, bytesOfHex nonce with
+      | some a, some al, some sl, some tm, some m, some n =>
+        if tm ≥ 2 ^ 32 ∨ m ≥ 2 ^ 32 ∨ !apiAllowed a al m then bad s
         else
           let txt : Bytes := if nctxt == "-" then [] else nctxt.toUTF8.toList
-          let r := presentText s.tbl s.now tm m sl n txt
-          ({ s with tbl := r.1 }, [showOut r.2])
-      | _, _, _, _ => bad s
+          let r := presentTextApi a s.tbl s.now tm m sl n txt
+          ({ s with tbl := r.1 }, [showApiOut (a.result r.2)])
+      | _, _, _, _, _, _ => bad s
   | ["state"] =>
       (s, [s!"n={s.tbl.length}" ++ String.join (s.tbl.map fun x => " " ++ showSlot x)])
   | _ => bad s
